@@ -92,12 +92,19 @@ def build_tree(key):
     repo = os.path.join(root, "repo")
     stamp = os.path.join(root, "TREE_OK")
     if os.path.exists(stamp):
+        try:
+            os.utime(root, None)
+        except OSError:
+            pass
         return root
     # only keep a few cached trees
     os.makedirs(SCRATCH_ROOT, exist_ok=True)
     olds = sorted((os.path.getmtime(os.path.join(SCRATCH_ROOT, d)), d) for d in os.listdir(SCRATCH_ROOT))
-    for _, d in olds[:-2]:
-        shutil.rmtree(os.path.join(SCRATCH_ROOT, d), ignore_errors=True)
+    now = time.time()
+    for i, (mt, d) in enumerate(olds):
+        # keep recent trees (other checks may be using them); never more than 12
+        if now - mt > 40 * 60 or i < len(olds) - 12:
+            shutil.rmtree(os.path.join(SCRATCH_ROOT, d), ignore_errors=True)
     shutil.rmtree(root, ignore_errors=True)
     os.makedirs(repo)
     t0 = time.time()
@@ -217,8 +224,9 @@ def load_known():
 
 
 def write_evidence(pid, ev):
-    os.makedirs(os.path.join(VERIF, "evidence"), exist_ok=True)
-    with open(os.path.join(VERIF, "evidence", pid + ".json"), "w") as fh:
+    evdir = os.environ.get("VERIF_EVIDENCE_DIR") or os.path.join(VERIF, "evidence")
+    os.makedirs(evdir, exist_ok=True)
+    with open(os.path.join(evdir, pid + ".json"), "w") as fh:
         json.dump(ev, fh, indent=1, sort_keys=True)
 
 
@@ -291,7 +299,8 @@ def check(pid, tier, seed, replay=None):
     wall = time.time() - t_start
 
     # triage
-    os.makedirs(os.path.join(VERIF, "replays", pid), exist_ok=True)
+    replay_root = os.environ.get("VERIF_REPLAY_DIR") or os.path.join(VERIF, "replays")
+    os.makedirs(os.path.join(replay_root, pid), exist_ok=True)
     known_sigs = {k["signature"]: k for k in known if k.get("status") == "known"}
     new_viol = {}
     known_hit = {}
@@ -307,7 +316,7 @@ def check(pid, tier, seed, replay=None):
         lines.append("KNOWN-FINDING: property=%s %s (%s) x%d" % (pid, sig, known_sigs[sig].get("what", ""), agg["sigs"].get(sig, 1)))
     confirmed = 0
     for sig, v in sorted(new_viol.items()):
-        rp = os.path.join(VERIF, "replays", pid, "%s-%d-%s.json" % (tier, seed, hashlib.sha1(sig.encode()).hexdigest()[:8]))
+        rp = os.path.join(replay_root, pid, "%s-%d-%s.json" % (tier, seed, hashlib.sha1(sig.encode()).hexdigest()[:8]))
         with open(rp, "w") as fh:
             json.dump(v, fh, indent=1)
         if v.get("process_crash"):
